@@ -10,12 +10,17 @@ PROP = {'id': 'C05',
                'Cluster.are_all_jobs_complete',
                'HpcSubmitter._get_available_jobs',
                'HpcSubmitter._update_completed_jobs',
-               'try_submit_jobs'],
+               'try_submit_jobs',
+               'JobSubmitter._submit_to_hpc',
+               'JobSubmitter.submit_jobs'],
  'native': ['HpcSubmitter._make_batch', 'HpcSubmitter.run'],
  'records': ['HpcSubmitter', 'Cluster', 'ClusterConfig'],
  'min_obligations': 1000,
  'assumptions': ['E1/E2 (environment): a batch with unfinished jobs is reported queued/running; a submitted batch eventually ends',
-                 'liveness (finitely many rounds) is NOT proved: only the per-round safety/progress clauses'],
+                 'liveness (finitely many rounds) is NOT proved: only the per-round safety/progress clauses',
+                 "link CLI -> round: JobSubmitter._submit_to_hpc is VERIFIED against HpcSubmitter.run's precondition; what remains assumed is "
+                 'HpcSubmitter.__init__ (field assignments) and that the state loaded by Cluster.deserialize / JobSubmitter.load satisfies the invariants '
+                 'every verified writer maintains (J, active ids <= max-nodes, group-parameter domain, configured names = job names)'],
  'not_decided': ['actual termination on a real scheduler', 'which node wins a promotion race'],
  'explanation': 'Per-round clauses: a not-submitted job of a group without blockers is left behind only when the node limit is reached (_submit_batches clause '
                 'f); _is_complete is exact; mark_complete requires not-complete (completion once). The try-submit-jobs callback is under contract: not '
